@@ -131,8 +131,11 @@ def gen_unit(rng, uid, opts):
         return it
 
     root = ("v", 0) if rng.random() < 0.6 else (("p", 0) if rng.random() < 0.7 or not u.ifaces else ("i", 0))
+    if u.ifaces and rng.random() < opts.get("p_iface_root", 0.0):
+        root = ("i", 0)
     if root[0] == "i":
         root = ("i", min(range(len(u.ifaces)), key=lambda j: u.ifaces[j]["impl"]))
+    force_arg = set()
     needed.append(root)
     allow_err = opts.get("err", True)
     while needed:
@@ -141,13 +144,20 @@ def gen_unit(rng, uid, opts):
             continue
         k, i = t
         x = rng.random()
+        if k in ("v", "p") and t in force_arg:
+            add_item({"kind": "arg", "outs": [t], "deps": []})
+            continue
         if k in ("v", "p"):
             other = ("p" if k == "v" else "v", i)
             st = u.structs[i]
             if x < p_fn:
+                fpkg = st["pkg"]
+                if rng.random() < opts.get("p_foreign_func", 0.25):
+                    # a constructor declared in a package that merely imports the type's package
+                    fpkg = rng.choice([q for q in ("liba", "libb", "app") if pkg_level(q) >= pkg_level(st["pkg"])])
                 add_item({"kind": "func", "outs": [t], "deps": later(t, rng.choice([0, 1, 1, 2, 2, 3])),
                           "cleanup": rng.random() < p_cl, "err": allow_err and rng.random() < p_er,
-                          "variadic": False, "pkg": st["pkg"]})
+                          "variadic": False, "pkg": fpkg})
             elif x < p_fn + 0.15 and other not in src and not st["fields"]:
                 deps = later(t, rng.choice([0, 1, 2, 3]))
                 # distinct field types are required by Wire; `later` already returns distinct types
@@ -157,7 +167,7 @@ def gen_unit(rng, uid, opts):
                           "struct": i, "pkg": st["pkg"]})
             elif x < p_fn + 0.27:
                 add_item({"kind": "value", "outs": [t], "deps": [], "pkg": st["pkg"]})
-            elif x < p_fn + 0.41 and i + 1 < nS:
+            elif x < p_fn + 0.27 + opts.get("p_field", 0.14) and i + 1 < nS:
                 # a field of a later struct m which is made by a provider function
                 cands = [m for m in range(i + 1, nS) if not any(it["kind"] == "struct" and it["struct"] == m for it in u.items)]
                 if not cands:
@@ -187,7 +197,11 @@ def gen_unit(rng, uid, opts):
         elif k == "i":
             d = u.ifaces[i]
             conc = ("p", d["impl"]) if d["ptr"] or rng.random() < 0.4 else ("v", d["impl"])
-            if x < 0.6:
+            if t == root and rng.random() < opts.get("p_iface_arg", 0.0):
+                add_item({"kind": "arg", "outs": [t], "deps": []})
+            elif x < 0.6:
+                if t == root and rng.random() < opts.get("p_conc_arg", 0.0):
+                    force_arg.add(conc)
                 add_item({"kind": "bind", "outs": [t], "deps": [conc], "conc": conc, "pkg": d["pkg"]})
             elif x < 0.75:
                 add_item({"kind": "ivalue", "outs": [t], "deps": [], "conc": conc, "pkg": d["pkg"]})
@@ -222,6 +236,23 @@ def gen_unit(rng, uid, opts):
                 it["deps"] = it["deps"] + [sl]
                 u.items.append({"kind": "value", "outs": [sl], "deps": [], "pkg": u.structs[k]["pkg"], "id": new_id()})
                 src[sl] = len(u.items) - 1
+    # a "bridge": a struct of package liba whose field is selected, while neither the provider of the struct
+    # nor the consumer of the field lives in liba (the generated code then never names liba)
+    if rng.random() < opts.get("p_bridge", 0.0):
+        cons = [it for it in u.items if it["kind"] == "func" and it["pkg"] != "liba" and "ret_conc" not in it and not it.get("variadic")]
+        if cons:
+            c = rng.choice(cons)
+            ip = len(u.structs)
+            u.structs.append({"name": sname(u, ip), "pkg": "liba", "fields": [("Gb", ("v", ip + 1))], "extra": [], "ptrrecv": False})
+            u.structs.append({"name": sname(u, ip + 1), "pkg": "liba", "fields": [], "extra": [], "ptrrecv": False})
+            c["deps"] = c["deps"] + [("v", ip + 1)]
+            u.items.append({"kind": "func", "outs": [("p", ip)], "deps": [], "cleanup": False, "err": False, "variadic": False,
+                            "pkg": c["pkg"], "id": new_id()})
+            src[("p", ip)] = len(u.items) - 1
+            u.items.append({"kind": "field", "outs": [("v", ip + 1), ("p", ip + 1)], "deps": [("p", ip)], "parent": ("p", ip),
+                            "fname": "Gb", "pkg": "liba", "id": new_id()})
+            src[("v", ip + 1)] = src[("p", ip + 1)] = len(u.items) - 1
+            nS = len(u.structs)
     # --- sets ---------------------------------------------------------------------------------
     arg_items = [n for n, it in enumerate(u.items) if it["kind"] == "arg"]
     other = [n for n, it in enumerate(u.items) if it["kind"] != "arg"]
@@ -257,6 +288,20 @@ def gen_unit(rng, uid, opts):
              "form": rng.choice(["plain", "plain", "panic", "noreturn"]),
              "argnames": None}
     rng.shuffle(u.inj["args"])
+    # unused injector parameters are legal; they must not be confused with the designated ones
+    if rng.random() < opts.get("p_extra_params", 0.3):
+        cands = [("v", i) for i in range(nS)] + [("p", i) for i in range(nS)]
+        cands = [t for t in cands if t not in src]
+        rng.shuffle(cands)
+        if root[0] == "i":
+            # prefer the other form of the type that implements the result interface
+            m = u.ifaces[root[1]]["impl"]
+            pref = [t for t in cands if t[1] == m and not (t[0] == "v" and u.ifaces[root[1]]["ptr"])]
+            cands = pref + [t for t in cands if t not in pref]
+        for t in cands[:rng.randint(1, 2)]:
+            u.items.append({"kind": "arg", "outs": [t], "deps": [], "id": new_id()})
+            src[t] = len(u.items) - 1
+            u.inj["args"].insert(rng.randint(0, len(u.inj["args"])), t)
     u.src = src
     return u
 
@@ -482,17 +527,17 @@ def materialise(prog):
                 conc = it.get("ret_conc", out)
                 k, i = conc
                 st = u.structs[i]
-                lit = T(u, ("v", i)) + "{ID: id" + "".join(", %s: %s" % (f, fresh_value(u, td, T)) for f, td in st["fields"]) + "}"
+                lit = T(u, ("v", i)) + "{ID: id_" + "".join(", %s: %s" % (f, fresh_value(u, td, T)) for f, td in st["fields"]) + "}"
                 val = "&" + lit if k == "p" else lit
                 zero = {"v": T(u, ("v", i)) + "{}", "p": "nil", "i": "nil", "s": "nil"}[out[0]]
                 lines = ["func %s(%s) %s {" % (name, ", ".join(params), rsig),
-                         "\tid, err := wtrace.Call(%s%s)" % (q, dargs)]
-                fail = ["\tif err != nil {"]
+                         "\tid_, err_ := wtrace.Call(%s%s)" % (q, dargs)]
+                fail = ["\tif err_ != nil {"]
                 if it["err"]:
                     r = [zero]
                     if it["cleanup"]:
                         r.append('func() { wtrace.Log("BADCLEANUP %s.%s") }' % (pkg, label))
-                    r.append("err")
+                    r.append("err_")
                     fail.append("\t\treturn " + ", ".join(r))
                 else:
                     fail.append('\t\tpanic("plan fails a provider that cannot fail")')
@@ -501,14 +546,14 @@ def materialise(prog):
                 for n, d in enumerate(it["deps"]):
                     if d[0] == "p":
                         lines.append('\twtrace.Log("argaddr %d " + wtrace.Addr(a%d))' % (n, n))
-                lines.append("\tv := " + val)
-                lines.append('\twtrace.Log("made " + wtrace.D(v))')
+                lines.append("\tval_ := " + val)
+                lines.append('\twtrace.Log("made " + wtrace.D(val_))')
                 if st["fields"] and k == "p":
                     for f, _ in st["fields"]:
-                        lines.append('\twtrace.Log("addr %s.%s " + wtrace.Addr(&v.%s))' % (st["name"], f, f))
-                r = ["v"]
+                        lines.append('\twtrace.Log("addr %s.%s " + wtrace.Addr(&val_.%s))' % (st["name"], f, f))
+                r = ["val_"]
                 if it["cleanup"]:
-                    r.append('func() { wtrace.Log(fmt.Sprintf("cleanup %s.%s #%%d", id)) }' % (pkg, label))
+                    r.append('func() { wtrace.Log(fmt.Sprintf("cleanup %s.%s #%%d", id_)) }' % (pkg, label))
                 if it["err"]:
                     r.append("nil")
                 lines.append("\treturn " + ", ".join(r))
@@ -767,6 +812,28 @@ def plant(rng, u, kind):
         for t in u.items[n]["outs"]:
             u.src.pop(t, None)
         return "removed the source of %s" % (u.items[n]["outs"],)
+    if kind == "missingtwin":
+        # remove the source of a type whose namesake (same package name, same type name, other package) stays provided
+        def namesake(t):
+            k, i = t
+            if k == "i" or k == "s":
+                return None
+            st = u.structs[i]
+            for j, o in enumerate(u.structs):
+                if j != i and o["name"] == st["name"] and o["pkg"] != st["pkg"] and \
+                        u.prog.pkgmap[o["pkg"]]["name"] == u.prog.pkgmap[st["pkg"]]["name"] and (k, j) in u.src:
+                    return (k, j)
+            return None
+        cands = [n for n in used_items if u.items[n]["kind"] in ("func", "value") and namesake(u.items[n]["outs"][0])]
+        if not cands:
+            return None
+        n = rng.choice(cands)
+        for s in u.sets:
+            if n in s["items"]:
+                s["items"].remove(n)
+        for t in u.items[n]["outs"]:
+            u.src.pop(t, None)
+        return "removed the source of %s, whose namesake in the other package of the same name is still provided" % (u.items[n]["outs"],)
     if kind == "dup":
         cands = [n for n in used_items if u.items[n]["kind"] == "value"]
         if not cands:
